@@ -1,8 +1,8 @@
 //@ unit: C13.set_breakpoints
 //@ props: C13
 //@ source: src/dap/yadap/session/breakpoint.rs
-//@ fn: DebugSession::handle_set_breakpoints (replace protocol: which record set is removed, which is stored)
-//@ shim: src/dap/yadap/session/mod.rs :: struct DebugSession :: breakpoints_by_source: HashMap<String, Vec<breakpoint::BreakpointRecord>>, next_breakpoint_id: i64
+//@ fn: DebugSession::handle_set_breakpoints, DebugSession::handle_set_instruction_breakpoints, DebugSession::handle_set_function_breakpoints (replace protocol: which record set is removed, which is stored)
+//@ shim: src/dap/yadap/session/mod.rs :: struct DebugSession :: breakpoints_by_source: HashMap<String, Vec<breakpoint::BreakpointRecord>>, function_breakpoints: Vec<breakpoint::BreakpointRecord>, instruction_breakpoints: Vec<breakpoint::BreakpointRecord>, next_breakpoint_id: i64
 //@ assume: the two loops are outlined WHOLE (their bodies are serde_json + debugger calls): `for record in prev {..}` removes every recorded address of every previous record from the debugger and queues one `removed` event per record (ghost: the records handed over are appended to `Dbg.removed`); `for bp in bps {..}` installs the requested lines and fills new_breakpoints / rsp_bps / pending_events; only the protocol AROUND them is verified: under which key the previous set is looked up, that exactly that set is removed from the debugger, and under which key the new set is stored
 //@ assume: SourceMap::map_client_to_target is a function `map_path` of the client path; request decoding (`req.arguments..`) outlined; source paths are an opaque key type PathStr (String in the real code; lawful Hash/Eq assumed); HashMap::remove(k).unwrap_or_default() outlined with std's contract
 //@ notcovered: the loop bodies (only the first returned location is recorded; `verified`), the other three set*Breakpoints handlers, addresses changing identity when the process starts, events on the wire
@@ -32,6 +32,8 @@ pub struct Dbg { pub removed: Ghost<Seq<BreakpointRecord>> }
 
 pub struct DebugSession {
     pub breakpoints_by_source: HashMap<PathStr, Vec<BreakpointRecord>>,
+    pub function_breakpoints: Vec<BreakpointRecord>,
+    pub instruction_breakpoints: Vec<BreakpointRecord>,
     pub next_breakpoint_id: i64,
     pub source_map: SourceMap,
     pub dbg: Dbg,
@@ -60,6 +62,17 @@ fn outline_install_new(dbg: &mut Dbg, bps: Vec<JsonV>, source_path: &PathStr, cl
                        new_breakpoints: &mut Vec<BreakpointRecord>, rsp_bps: &mut Vec<JsonV>, pending_events: &mut Vec<InternalEvent>)
     ensures final(dbg).removed@ == old(dbg).removed@,
 { unimplemented!() }
+/// `std::mem::take(&mut v)`
+#[verifier::external_body]
+fn outline_take_vec(v: &mut Vec<BreakpointRecord>) -> (r: Vec<BreakpointRecord>)
+    ensures r@ == old(v)@, final(v)@.len() == 0,
+{ unimplemented!() }
+/// `for bp in bps { .. }` of the instruction / function handlers
+#[verifier::external_body]
+fn outline_install_new2(dbg: &mut Dbg, bps: Vec<JsonV>, next_id: &mut i64, new_breakpoints: &mut Vec<BreakpointRecord>, rsp_bps: &mut Vec<JsonV>, pending_events: &mut Vec<InternalEvent>)
+    ensures final(dbg).removed@ == old(dbg).removed@,
+{ unimplemented!() }
+pub struct ProgressId;
 #[verifier::external_body]
 fn outline_json_body(rsp_bps: Vec<JsonV>) -> (r: JsonV) { unimplemented!() }
 
@@ -70,21 +83,61 @@ pub open spec fn records_under(s: &DebugSession, key: PathStr) -> Seq<Breakpoint
 impl DebugSession {
     #[verifier::external_body]
     fn outline_debugger(&mut self) -> (r: Result<&mut Dbg, AnyErr>)
-        ensures r is Ok ==> *r->Ok_0 == old(self).dbg && final(self).dbg == *final(r->Ok_0) && final(self).breakpoints_by_source == old(self).breakpoints_by_source && final(self).next_breakpoint_id == old(self).next_breakpoint_id,
+        ensures r is Ok ==> *r->Ok_0 == old(self).dbg && final(self).dbg == *final(r->Ok_0) && final(self).breakpoints_by_source == old(self).breakpoints_by_source && final(self).next_breakpoint_id == old(self).next_breakpoint_id && final(self).function_breakpoints == old(self).function_breakpoints && final(self).instruction_breakpoints == old(self).instruction_breakpoints,
             r is Err ==> *final(self) == *old(self),
     { unimplemented!() }
     #[verifier::external_body]
     fn outline_enqueue_all(&mut self, evs: Vec<InternalEvent>)
-        ensures final(self).breakpoints_by_source == old(self).breakpoints_by_source && final(self).dbg == old(self).dbg,
+        ensures final(self).breakpoints_by_source == old(self).breakpoints_by_source && final(self).dbg == old(self).dbg && final(self).function_breakpoints == old(self).function_breakpoints && final(self).instruction_breakpoints == old(self).instruction_breakpoints,
     { unimplemented!() }
     #[verifier::external_body]
     fn send_success_body(&mut self, req: &DapRequest, body: JsonV) -> (r: Result<(), AnyErr>)
-        ensures final(self).breakpoints_by_source == old(self).breakpoints_by_source && final(self).dbg == old(self).dbg,
+        ensures final(self).breakpoints_by_source == old(self).breakpoints_by_source && final(self).dbg == old(self).dbg && final(self).function_breakpoints == old(self).function_breakpoints && final(self).instruction_breakpoints == old(self).instruction_breakpoints,
     { unimplemented!() }
     #[verifier::external_body]
     fn drain_events(&mut self) -> (r: Result<(), AnyErr>)
-        ensures final(self).breakpoints_by_source == old(self).breakpoints_by_source && final(self).dbg == old(self).dbg,
+        ensures final(self).breakpoints_by_source == old(self).breakpoints_by_source && final(self).dbg == old(self).dbg && final(self).function_breakpoints == old(self).function_breakpoints && final(self).instruction_breakpoints == old(self).instruction_breakpoints,
     { unimplemented!() }
+
+    /// progress reporting of the function handler (events only)
+    #[verifier::external_body]
+    fn outline_progress_start(&mut self, n: usize) -> (r: Option<ProgressId>)
+        ensures final(self).breakpoints_by_source == old(self).breakpoints_by_source && final(self).dbg == old(self).dbg && final(self).function_breakpoints == old(self).function_breakpoints && final(self).instruction_breakpoints == old(self).instruction_breakpoints,
+    { unimplemented!() }
+    #[verifier::external_body]
+    fn outline_progress_end(&mut self, id: ProgressId, n: usize)
+        ensures final(self).breakpoints_by_source == old(self).breakpoints_by_source && final(self).dbg == old(self).dbg && final(self).function_breakpoints == old(self).function_breakpoints && final(self).instruction_breakpoints == old(self).instruction_breakpoints,
+    { unimplemented!() }
+
+//@ extract: impl DebugSession / fn handle_set_instruction_breakpoints
+//@   sig: pub fn handle_set_instruction_breakpoints(&mut self, req: &DapRequest) -> (r: Result<(), AnyErr>)
+//@   ensures E_i_replaced_set: r is Ok ==> final(self).dbg.removed@ == old(self).dbg.removed@ + old(self).instruction_breakpoints@
+//@   ensures E_i_other_kinds: r is Ok ==> final(self).function_breakpoints == old(self).function_breakpoints && final(self).breakpoints_by_source == old(self).breakpoints_by_source
+//@   outline O_take: `std::mem::take(&mut self.instruction_breakpoints)` => `outline_take_vec(&mut self.instruction_breakpoints)`
+//@   outline O_bps: `req .arguments .get("breakpoints") .and_then(|v| v.as_array()) .cloned() .unwrap_or_default()` => `outline_requested(req)`
+//@   outline O_dbg: `self .debugger .as_mut() .ok_or_else(|| anyhow!($m))?` => `self.outline_debugger()?`
+//@   outline O_rm: `for record in prev { $stmts_a }` => `outline_remove_prev(dbg, prev, &mut pending_events);`
+//@   outline O_clo: `let mut alloc_id = || { $stmts_x };` => ``
+//@   outline O_new: `for bp in bps { $stmts_b }` => `outline_install_new2(dbg, bps, &mut next_id, &mut new_breakpoints, &mut rsp_bps, &mut pending_events);`
+//@   outline O_enq: `for event in pending_events { $stmts_c }` => `self.outline_enqueue_all(pending_events);`
+//@   outline O_json: `json!({"breakpoints": rsp_bps})` => `outline_json_body(rsp_bps)`
+//@ end
+
+//@ extract: impl DebugSession / fn handle_set_function_breakpoints
+//@   sig: pub fn handle_set_function_breakpoints(&mut self, req: &DapRequest) -> (r: Result<(), AnyErr>)
+//@   ensures E_f_replaced_set: r is Ok ==> final(self).dbg.removed@ == old(self).dbg.removed@ + old(self).function_breakpoints@
+//@   ensures E_f_other_kinds: r is Ok ==> final(self).instruction_breakpoints == old(self).instruction_breakpoints && final(self).breakpoints_by_source == old(self).breakpoints_by_source
+//@   outline O_take: `std::mem::take(&mut self.function_breakpoints)` => `outline_take_vec(&mut self.function_breakpoints)`
+//@   outline O_bps: `req .arguments .get("breakpoints") .and_then(|v| v.as_array()) .cloned() .unwrap_or_default()` => `outline_requested(req)`
+//@   outline O_prog: `if bps.is_empty() { None } else { Some(self.enqueue_progress_start( $p )) }` => `self.outline_progress_start(bps_len)`
+//@   outline O_dbg: `self .debugger .as_mut() .ok_or_else(|| anyhow!($m))?` => `self.outline_debugger()?`
+//@   outline O_rm: `for record in prev { $stmts_a }` => `outline_remove_prev(dbg, prev, &mut pending_events);`
+//@   outline O_clo: `let mut alloc_id = || { $stmts_x };` => ``
+//@   outline O_new: `for bp in bps { $stmts_b }` => `outline_install_new2(dbg, bps, &mut next_id, &mut new_breakpoints, &mut rsp_bps, &mut pending_events);`
+//@   outline O_enq: `for event in pending_events { $stmts_c }` => `self.outline_enqueue_all(pending_events);`
+//@   outline O_pend: `self.enqueue_progress_update( $u ); self.enqueue_progress_end( $e );` => `self.outline_progress_end(progress_id, bps_len);`
+//@   outline O_json: `json!({"breakpoints": rsp_bps})` => `outline_json_body(rsp_bps)`
+//@ end
 
 //@ extract: impl DebugSession / fn handle_set_breakpoints
 //@   sig: pub fn handle_set_breakpoints(&mut self, req: &DapRequest) -> (r: Result<(), AnyErr>)
